@@ -234,6 +234,30 @@ def mechanism_facts(fam, t, err, path):
                     a = ref.field_alias(name, f, opts) if opts is not None else None
                     if a is not None:
                         noninit.add(a)
+    # F38: a field carrying a NamedTuple engine option (serialize='as_dict' | 'as_list') whose NamedTuple sits inside a
+    # list / dict: the serializer drops the option for collection elements, the schema builder keeps it
+    engine_keys = set()
+    for name, d in fam.defs.items():
+        if d.get("k") != "dc":
+            continue
+        try:
+            opts = ref.dc_opts(name, Ctx())
+        except Exception:
+            opts = None
+        for f in d["fields"]:
+            if f.get("raw") or (f.get("meta") or {}).get("serialize") not in ("'as_dict'", "'as_list'"):
+                continue
+            nested = False
+            for n in tast.walk(f["t"]):
+                if n[0] in ("seq", "map", "counter", "chainmap") and any(m[0] == "nt" for m in tast.walk(n)):
+                    nested = True
+            if nested:
+                engine_keys.add(f["n"])
+                a = ref.field_alias(name, f, opts) if opts is not None else None
+                if a is not None:
+                    engine_keys.add(a)
+    out["under_field_with_namedtuple_engine_on_collection"] = any(
+        a == "properties" and b in engine_keys for a, b in zip(path, path[1:]))
     extras = []
     for l in leaves:
         if str(l.validator) == "additionalProperties" and isinstance(l.instance, dict) and isinstance(l.schema, dict):
